@@ -188,4 +188,14 @@ example : (run exRemote [0, 0, 0, 1, 1, 1, 1, 0, 0]).log.reverse.map (fun r => (
     [(0, 1, .start, none), (0, 2, .msg, some 1), (1, 10, .start, some 1), (1, 11, .msg, some 10), (1, 10, .end_, some 10),
      (1, 12, .msg, none), (0, 1, .end_, some 1)] := by decide
 
+/-- a task spawned inside a `with job_5.context():` block of its creator and joined after that block: it keeps
+action 5 although the creator has left it (msg 11 is logged after the creator's `exit`) -/
+def exSegment : Prog :=
+  ⟨[[.enter 1, .create 5, .ctxOf 5, .spawnTask 1, .exit, .log 2, .join 1, .withOf 5, .exit, .exit], [.log 11]]⟩
+
+example : Joined exSegment := by unfold Joined; decide
+example : (run exSegment [0, 0, 0, 0, 0, 0, 1, 0, 0, 0, 0]).log.reverse.filterMap
+      (fun r => if r.kind = .msg then some (r.unit, r.occ, r.parent) else none) =
+    [(0, 2, some 1), (1, 11, some 5)] := by decide
+
 end Ctx.C05
